@@ -82,6 +82,19 @@ where
     returns `None`.
     */
     fn current(&self) -> Option<(&Self::Key, &Vec<u8>)>;
+
+    /**
+    Take the error, if any, that made the last [`RainDbIterator::next`] or
+    [`RainDbIterator::prev`] call give up.
+
+    `next` and `prev` cannot return an error. An iterator that reads from storage and fails while
+    moving records the error here and becomes invalid. Callers that must tell "exhausted" from
+    "failed" (e.g. compactions, which delete their inputs afterwards) check this once iteration
+    stops.
+    */
+    fn take_error(&mut self) -> Option<Self::Error> {
+        None
+    }
 }
 
 /**
@@ -181,6 +194,10 @@ impl RainDbIterator for CachingIterator {
 
     fn current(&self) -> Option<(&Self::Key, &Vec<u8>)> {
         self.cached_entry.as_ref().map(|entry| (&entry.0, &entry.1))
+    }
+
+    fn take_error(&mut self) -> Option<Self::Error> {
+        self.iterator.take_error()
     }
 }
 
